@@ -5,7 +5,7 @@ from .. import eworld
 from ..dworld import (DWorld, gen_filter, FEATURE_TYPES, BUILDERS, INVALID_KINDS, observe_dispatcher, rec_classes, mark_manual)
 from ..instances import gen_instance, n_ops
 from ..util import stream, cjson, Foreign
-from ..core import short_exc
+from ..core import short_exc, owner_of_exception
 
 PROP = "C09"
 LEVEL = "fault_enumeration"
@@ -49,8 +49,15 @@ def generate(seed, tier):
     spec = gen_instance(rng, sparse_ids=0.03, max_jobs=4, max_machines=4, max_ops=4, positive=True if names else None)
     n = n_ops(spec)
     ops = [["dispatch", rng.randrange(64), rng.randrange(64), int(rng.random() < 0.5)] for _ in range(n if rng.random() < 0.7 else rng.randint(0, n))]
-    return {"prop": PROP, "kind": "dispatch", "cfg": {"instance": spec, "filter": names, "filter_style": style, "observers": mark_manual(stream(seed, "c09-manual"), zoo(rng), 0.06)},
-            "ops": ops, "arg_seed": rng.randrange(1 << 30)}
+    cfg = {"instance": spec, "filter": names, "filter_style": style, "observers": mark_manual(stream(seed, "c09-manual"), zoo(rng), 0.06)}
+    rs = stream(seed, "c09-swap")
+    if rs.random() < 0.15:
+        # at one point of the history the user replaces the filter through the public attribute (it takes effect with
+        # the next dispatch: what was asked before stays answered as it was)
+        from ..model import FILTERS
+
+        cfg["swap_filter"] = {"at": rs.randint(0, max(0, len(ops) - 1)), "names": [rs.choice(FILTERS)] if (rs.random() < 0.7 and all(d > 0 for job in spec["jobs"] for _, d in job)) else []}
+    return {"prop": PROP, "kind": "dispatch", "cfg": cfg, "ops": ops, "arg_seed": rng.randrange(1 << 30)}
 
 
 def snap(x):
@@ -97,8 +104,27 @@ def execute_dispatch(case, ctx):
     arg = random.Random(case["arg_seed"])
     only = case.get("only")
     ops = case["ops"]
+    def look(x):
+        """The dispatcher, its observers and what it answers when asked (asking is part of looking)."""
+        out = observe_dispatcher(x.disp)
+        try:
+            out["available"] = [(o.job_id, o.position_in_job) for o in x.disp.available_operations()]
+            out["current_time"] = x.disp.current_time()
+        except Exception as e:  # noqa: BLE001
+            raise Foreign(owner_of_exception(e, "C05"), f"query raised {short_exc(e)}")
+        return out
+
+    swap = cfg.get("swap_filter")
     for k in range(len(ops) + 1):
         ctx.step = k
+        if swap and swap["at"] == k:
+            from ..dworld import make_filter
+
+            for x in (w, twin):
+                look(x)
+                x.disp.ready_operations_filter = make_filter(swap["names"], "callable")
+                x.model.filt = tuple(swap["names"])
+            ctx.probe("filter_replaced_mid_history")
         # ---- inject every kind at this prefix
         for kind in INVALID_KINDS:
             a, b = arg.randrange(64), arg.randrange(64)
@@ -108,7 +134,7 @@ def execute_dispatch(case, ctx):
             if built is None:
                 continue
             thunk, desc = built
-            before = observe_dispatcher(w.disp)
+            before = look(w)
             n_cb = len(sink)
             ctx.fault("invalid_request:" + kind)
             ctx.count("injection")
@@ -119,7 +145,7 @@ def execute_dispatch(case, ctx):
                 outcome = type(e).__name__
             else:
                 outcome = None
-            after = observe_dispatcher(w.disp)
+            after = look(w)
             ctx.event(k, kind, desc, outcome)
             if outcome is None:
                 ctx.fail("invalid_request_must_raise", f"prefix {k}: {desc} did not raise", kind=kind)
